@@ -528,3 +528,69 @@ def secret_log(fam, args):
     toks = [t for t in args["a"].split() if len(t) >= 3]
     leaks = [m for lvl, m in recs if lvl >= logging.INFO and any(t in m for t in toks[-1:])]
     return dict(violated=bool(leaks), observed=leaks[:2], detail="records >= INFO mentioning the last token: %d" % len(leaks))
+
+
+@register("secret_format")
+def secret_format(fam, args):
+    """C09: replacement keeps enclosing text and has (one of) the input's format(s), judged by independent decoders"""
+    import re
+    import importlib
+    a, head, tail = args["a"], args["head"], args["tail"]
+    r = secret_run(fam, dict(mode="value", a=a))
+    if r.startswith("EXC:"):
+        return dict(violated=True, observed=r, detail="raised")
+    if not (r.startswith(head) and r.endswith(tail)):
+        return dict(violated=True, observed=r, detail="enclosing text lost")
+    core_in = a[len(head):len(a) - len(tail)]
+    core_out = r[len(head):len(r) - len(tail)]
+    T7 = "dsfd;kfoA,.iyewrkldJKDHSUBsgvca69834ncxv9873254k;fg87"
+    H64 = re.escape("./0123456789ABCDEFGHIJKLMNOPQRSTUVWXYZabcdefghijklmnopqrstuvwxyz")
+
+    def t7ok(s):
+        if not re.fullmatch(r"[0-9]{2}([0-9A-Fa-f]{2})+", s) or int(s[:2]) > 15:
+            return False
+        seed = int(s[:2])
+        dec = "".join(chr(int(s[i:i + 2], 16) ^ ord(T7[(seed + (i - 2) // 2) % len(T7)])) for i in range(2, len(s), 2))
+        return dec.startswith("netconanRemoved")
+    fm_in = set()
+    if re.fullmatch(r"[0-9]+", core_in):
+        fm_in.add("numeric")
+    if re.fullmatch(r"[0-9a-fA-F]+", core_in):
+        fm_in.add("hex")
+    if re.fullmatch(r"[01][0-9]([0-9a-fA-F]{2})+", core_in):
+        fm_in.add("type7")
+    m = re.fullmatch(r"\$1\$([^$]+)\$.+", core_in)
+    if m:
+        fm_in.add("md5_%d" % len(m.group(1)))
+    if re.fullmatch(r"\$6\$.+", core_in):
+        fm_in.add("sha512")
+    if re.fullmatch(r"\$9\$.+", core_in):
+        fm_in.add("j9")
+    fm_out = set()
+    if re.fullmatch(r"[0-9]+", core_out):
+        fm_out.add("numeric")
+    if re.fullmatch(r"[0-9a-fA-F]+", core_out):
+        fm_out.add("hex")
+    if t7ok(core_out):
+        fm_out.add("type7")
+    m = re.fullmatch(r"\$1\$([^$]*)\$[%s]{22}" % H64, core_out)
+    if m:
+        fm_out.add("md5_%d" % len(m.group(1)))
+    if re.fullmatch(r"\$6\$[%s]{1,16}\$[%s]{86}" % (H64, H64), core_out):
+        fm_out.add("sha512")
+    try:
+        if jun_reference_decrypt(core_out).startswith("netconanRemoved"):
+            fm_out.add("j9")
+    except (ValueError, KeyError):
+        pass
+    bad = bool(fm_in) and not (fm_in & fm_out)
+    return dict(violated=bad, observed=r, detail="input formats %s, output formats %s" % (sorted(fm_in), sorted(fm_out)))
+
+
+@register("secret_context")
+def secret_context(fam, args):
+    """C09-H2: the line keeps its text before and after the secret; exactly one whitespace-free replacement in between"""
+    r = secret_run(fam, dict(mode="line", a=args["a"]))
+    pre, suf = args["pre"], args["suf"]
+    ok = r.startswith(pre) and r.endswith(suf) and len(r) > len(pre) + len(suf) and not any(c.isspace() for c in r[len(pre):len(r) - len(suf)])
+    return dict(violated=not ok, observed=r, detail="%r -> %r" % (args["a"], r))
